@@ -79,16 +79,15 @@ fn main() {
                     r.add_cov_u64("match_result_builder_sequences", t.evaluations);
                     r.append_cov("samples", t.samples.clone());
                     sweeps::add_to(&mut r, p, tier);
-                    r.concat_cov("rule", "engine G: every sequence of <= 4 transactions with quantities in {0,1,2,3,MAX} appended to MatchResult::new(id, q), q in {0..6,MAX}, sum <= q: remaining = q - sum, is_complete <=> remaining = 0, executed_quantity = sum");
+                    r.concat_cov("rule", "engine G: every sequence of <= 4 transactions with quantities in {0,1,2,3,MAX} (carrying the result's own taker id; <= 3 carrying an unrelated id or the other-format twin) appended to MatchResult::new(id, q), q in {0..6,MAX}, sum <= q: remaining = q - sum, is_complete <=> remaining = 0, executed_quantity = sum");
                     r.finish()
                 }
-                "C01" | "C06" => {
+                "C01" | "C06" | "C04" | "C07" | "C10" | "C11" => {
                     let mut r = common::Report::new(p, tier, "model_checking");
                     seq_checks::run_into(&mut r, p, tier, 1.0);
                     sweeps::add_to(&mut r, p, tier);
                     r.finish()
                 }
-                "C04" | "C07" | "C10" | "C11" => seq_checks::run(p, tier),
                 "C19" => c19::run(tier),
                 "C05" => grid::run_c05(tier),
                 "C16" => grid::run_c16(tier),
